@@ -84,9 +84,10 @@ def make_config(c):
 
 
 def ns_map_of(m):
+    """JSON cannot carry a None key: "" stands for None (default namespace), "@empty" for the literal '' key"""
     if m is None:
         return None
-    return {(None if k == "" else k): v for k, v in m.items()}
+    return {(None if k == "" else ("" if k == "@empty" else k)): v for k, v in m.items()}
 
 
 def infoset(xml_bytes):
@@ -142,12 +143,19 @@ def run_case(ctx, mod, objs, case):
             out["equal"] = not err and all(v == vals[0] for v in vals)
             if not out["equal"]:
                 out["infosets"] = {k: json.dumps(v)[:1500] for k, v in res.items()}
+                ks = list(res)
+                out["agree"] = sorted("=".join(sorted([a, b])) for i, a in enumerate(ks) for b in ks[i + 1:] if res[a] == res[b])
         elif op == "handlers":
             # C08: both handlers, every source kind, same object (or the same exception type)
             import xml.etree.ElementTree as ET
             from lxml import etree
             xml = case.get("doc") or XmlSerializer(context=ctx).render(obj)
             data = xml.encode()
+            if case.get("rewrite_seed") is not None:
+                import random
+                import xmlrewrite as X
+                data = X.rewrite(xml, ["comments_pis", "comment_in_text", "cdata", "charrefs", "attr_order", "prefixes"], random.Random(case["rewrite_seed"]))
+                xml = data.decode()
             tmpd = tempfile.mkdtemp(prefix="c08-")
             path = os.path.join(tmpd, "doc.xml")
             with open(path, "wb") as f:
